@@ -479,6 +479,58 @@ h_new_buff(int len, int size, int isnull)
     finish(s);
 }
 
+/* C05: dup independence and comp laws for mbuff */
+static void
+h_dup_indep(int len, int slack)
+{
+    model m, dm;
+    MB_T s = mk_state(len, slack, &m), d, d2;
+    unsigned char x = 'x';
+
+    d = F(dup)(s);
+    CHECK("dup returns an object", d != NULL);
+    if (!d) {
+        return;
+    }
+    CHECK("dup is of the same class", SPIF_OBJ_CLASS(d) == SPIF_OBJ_CLASS(s));
+    CHECK("type() names the object's class", F(type)(s) == SPIF_OBJ_CLASSNAME(s));
+    dm = m;
+    F(append_from_ptr)(d, &x, 1);
+    dm.t[dm.len++] = 'x';
+    check_state(d, &dm);
+    check_state(s, &m);
+    F(del)(d);
+    check_state(s, &m);
+    d2 = F(dup)(s);
+    F(append_from_ptr)(s, &x, 1);
+    F(del)(s);
+    if (d2) {
+        check_state(d2, &m);
+    }
+    finish(d2);
+}
+
+static void
+h_comp_laws(int l1, int l2, int l3)
+{
+    model ma, mb, mc;
+    MB_T a = mk_state(l1, l1 ? 0 : -1, &ma), b = mk_state(l2, 1, &mb), c = mk_state(l3, 0, &mc);
+    int ab = (int) F(comp)(a, b), ba = (int) F(comp)(b, a), bc = (int) F(comp)(b, c), ac = (int) F(comp)(a, c), i, same;
+
+    CHECK("comp is reflexive", (int) F(comp)(a, a) == 0 && (int) F(comp)(b, b) == 0);
+    CHECK("comp is antisymmetric", ab == -ba);
+    CHECK("comp is transitive", !(ab <= 0 && bc <= 0) || ac <= 0);
+    same = (l1 == l2);
+    for (i = 0; same && i < l1; i++) {
+        same = (ma.t[i] == mb.t[i]);
+    }
+    CHECK("comp reports equality exactly for equal byte sequences (equal prefix, different length: not equal)", (ab == 0) == (same != 0));
+    CHECK("NULL orders before every object", (int) F(comp)(a, (MB_T) NULL) == 1 && (int) F(comp)((MB_T) NULL, a) == -1);
+    F(del)(b);
+    F(del)(c);
+    finish(a);
+}
+
 #ifdef VERIF_STREAMS
 #include <errno.h>
 #include "env_io.h"
